@@ -24,25 +24,37 @@ use crate::{
 pub const VEC_NAME: &str = "v";
 pub const VERSION: Version = Version::ONE;
 
-/// Element types driven through the engine.
-pub trait Elem:
-    vecdb::VecValue + vecdb::Bytes + Copy + PartialEq + PartialOrd + Debug + Default
-{
-    const SIZE: usize = size_of::<Self>();
+/// Values the read battery can compare.
+pub trait Val: vecdb::VecValue + Copy + PartialEq + PartialOrd + Debug + Default {
     fn make(x: u64) -> Self;
     fn bits(&self) -> u128;
 }
 
+/// Element types driven through the stored-vector engine.
+pub trait Elem: Val + vecdb::Bytes {}
+impl<T: Val + vecdb::Bytes> Elem for T {}
+
 macro_rules! int_elem {
     ($($t:ty),*) => {$(
-        impl Elem for $t {
+        impl Val for $t {
             fn make(x: u64) -> Self { x as $t }
             fn bits(&self) -> u128 { *self as u128 }
         }
     )*};
 }
 int_elem!(u8, u16, u32, u64, i64);
-impl Elem for f32 {
+impl<T: Val> Val for Option<T> {
+    fn make(x: u64) -> Self {
+        Some(T::make(x))
+    }
+    fn bits(&self) -> u128 {
+        match self {
+            None => u128::MAX,
+            Some(v) => v.bits(),
+        }
+    }
+}
+impl Val for f32 {
     fn make(x: u64) -> Self {
         x as f32 * 0.5
     }
@@ -50,7 +62,7 @@ impl Elem for f32 {
         self.to_bits() as u128
     }
 }
-impl Elem for f64 {
+impl Val for f64 {
     fn make(x: u64) -> Self {
         x as f64 * 0.25
     }
